@@ -164,12 +164,20 @@ def args2 (c : Cmd) : List Arg :=
   let args1 := if !st0.disableHelpFlag then c.args ++ [helpArg] else c.args
   if !(st0.disableVersionFlag || !st0.hasVersion) then args1 ++ [versionArg] else args1
 
-theorem buildSelfCore_args (c : Cmd) : (buildSelfCore c).args = (buildArgs (args2 c) 1 c.groups).1 := by
+/-- the command-level hyphen switches touch nothing the assertions or the parser's lookups read -/
+theorem cmdLevelArg_fields (st : Settings) (a : Arg) :
+    (cmdLevelArg st a).id = a.id ∧ (cmdLevelArg st a).long = a.long ∧ (cmdLevelArg st a).short = a.short ∧
+    (cmdLevelArg st a).aliases = a.aliases ∧ (cmdLevelArg st a).index = a.index := by
+  unfold cmdLevelArg
+  split <;> simp
+
+theorem buildSelfCore_args (c : Cmd) : ∃ st, (buildSelfCore c).args = ((buildArgs (args2 c) 1 c.groups).1).map (cmdLevelArg st) := by
   unfold buildSelfCore args2
   simp only
   generalize buildArgs _ 1 c.groups = r
   obtain ⟨a3, g3⟩ := r
-  simp
+  cases c
+  exact ⟨_, rfl⟩
 
 theorem buildSelfCore_groups (c : Cmd) : (buildSelfCore c).groups = (buildArgs (args2 c) 1 c.groups).2 := by
   unfold buildSelfCore args2
@@ -230,13 +238,21 @@ theorem args2_nodup (c : Cmd) (h : UserLevelOk c) : ((args2 c).map (·.id)).Nodu
 /-- **one level of `_build_self` establishes the assertions** -/
 theorem buildSelfCore_level (c : Cmd) (h : UserLevelOk c) : WF (buildSelfCore c) ∧ GroupsOk (buildSelfCore c) := by
   obtain ⟨i1, i2, i3, i4⟩ := buildArgs_spec (args2 c) 1 c.groups
-  have hA := buildSelfCore_args c
+  obtain ⟨st, hA⟩ := buildSelfCore_args c
   have hG := buildSelfCore_groups c
-  have hids : (buildSelfCore c).args.map (·.id) = (args2 c).map (·.id) := by rw [hA]; exact i1
+  have hids : (buildSelfCore c).args.map (·.id) = (args2 c).map (·.id) := by
+    rw [hA, List.map_map, ← i1]
+    apply List.map_congr_left
+    intro a _
+    exact (cmdLevelArg_fields st a).1
   refine ⟨⟨by rw [hids]; exact args2_nodup c h, ?_⟩, ?_⟩
   · intro b hb hidx
     rw [hA] at hb
-    obtain ⟨a, ha, _, hl, hs, hal, hor⟩ := i2 b hb
+    obtain ⟨b0, hb0, rfl⟩ := List.mem_map.1 hb
+    obtain ⟨f1, f2, f3, f4, f5⟩ := cmdLevelArg_fields st b0
+    rw [f5] at hidx
+    rw [f2, f4]
+    obtain ⟨a, ha, _, hl, hs, hal, hor⟩ := i2 b0 hb0
     have hpos : a.isPositional = true := by
       rcases hor with h1 | h1
       · rcases args2_mem c a ha with h2 | h2 | h2
